@@ -24,10 +24,11 @@ func init() {
 	}
 	Registry["C07"] = Entry{
 		Run: runC07,
-		Explanation: "Decides three structural necessary conditions of 'accepted programs are type-safe; ill-typed bindings are rejected' (thin claim): " +
+		Explanation: "Decides four structural necessary conditions of 'accepted programs are type-safe; ill-typed bindings are rejected' (thin claim): " +
 			"T1 assignability and type equality recurse on the right operands (operand symmetry over every IsAssignableFrom / CheckEqual implementation), " +
 			"T2 in every implementation of Type.IsValidExpression the reference arm returns nil only after resolveType succeeded and IsAssignableFrom(receiver, resolved type) succeeded (sibling agreement over all implementations), and the split / disabled arms delegate, " +
-			"T3 wherever a type id is wrapped in a map (MapDim = ArrayDim + 1, found by shape) the test MapDim == 0 of the same value is crossed after its last definition (no silent map<map> collapse). " +
+			"T3 wherever a type id is wrapped in a map (MapDim = ArrayDim + 1, found by shape) the test MapDim == 0 of the same value is crossed after its last definition (no silent map<map> collapse), " +
+			"T4 (*MergeExp).HasRef delegates to the merged value only under a true KnownLength() test (a merge over a run-time length is never handed to a stage as a constant). " +
 			"NOT decided: soundness of the whole relation, projection, array dimensions, error locations: this decides two mechanisms, not the property's behaviour.",
 		Assumptions: commonAssumptions,
 	}
@@ -382,6 +383,7 @@ func runC07(c *an.Ctx) {
 	ruleT1(c, "T1")
 	ruleT2(c)
 	ruleT3(c)
+	ruleT4(c)
 }
 
 func ruleT2(c *an.Ctx) {
